@@ -704,3 +704,112 @@ def check_carry_exits(ctx, res, config="all"):
     if config == "all" and n_loops < 12:
         res.fail(Finding("R9-anchor-lost", "carry-loops", "only %d digit loops threading a carry found (12 counted on the reviewed tree)" % n_loops, file="src/biguint/addition.rs", line=0))
     res.clause("R9-carry: a digit loop threading running carries (adc/sbb/mac_with_carry/negate_carry through `&mut`) leaves before exhaustion only on a condition computed from every such carry that no later loop keeps propagating")
+
+
+# ------------------------------------------------------------------------------------------
+# cursor iterators: an exhaustion test must be able to come out either way
+
+
+def _field_place_key(pl):
+    """identity of a place like (*self).data: (local, ((kind, idx), ..)) - None for anything with an index in it"""
+    if pl is None or not pl["proj"]:
+        return None
+    ks = []
+    for e in pl["proj"]:
+        if e["k"] not in ("deref", "field"):
+            return None
+        ks.append((e["k"], e.get("idx")))
+    return (pl["local"], tuple(ks))
+
+
+def _arg_field_place(b, op):
+    """the self-field a call argument was copied from (`x(copy (*self).data)`), else None"""
+    p = core.op_place(op)
+    if p is None:
+        return None
+    if p["proj"]:
+        return _field_place_key(p)
+    ds = b.defs().get(p["local"], [])
+    if len(ds) == 1 and ds[0][0] == "assign" and ds[0][3]["rv"]["k"] in ("use", "ref"):
+        src = ds[0][3]["rv"].get("op") or {"k": "copy", "place": ds[0][3]["rv"].get("place")}
+        if src.get("k") == "const":
+            return None
+        q = src["place"]
+        if q["proj"]:
+            if [e["k"] for e in q["proj"]] == ["deref"] and not b.is_param(q["local"]):
+                # `&*tmp` with tmp = copy of the field (a reborrow of the slice reference)
+                inner = _arg_field_place(b, {"k": "copy", "place": {"local": q["local"], "proj": []}})
+                if inner is not None:
+                    return inner
+            return _field_place_key(q)
+        return _arg_field_place(b, src)
+    return None
+
+
+def check_exhaustion_tests_live(ctx, res, config="all"):
+    """Inside `if let Some(..) = self.data.split_last()` (or first/last/split_first) the slice field is known to be non-empty.
+    An `is_empty()` of that same field there, with no store to the field in between, is constantly false: the branch it
+    guards - in a cursor iterator, the one that reports exhaustion - can never be taken.  The test has to look at the
+    remainder that split_* handed out (or at the field after it was updated)."""
+    facts = ctx.facts(config)
+    n_tests = 0
+    n_bodies = 0
+    for b in facts.bodies:
+        if not b.blocks or "biguint::iter" not in b.path:
+            continue
+        n_bodies += 1
+        live = b.live_blocks()
+        splits = []
+        for i, t in b.calls():
+            if i in live and core.callee_name(t) in ("split_last", "split_first", "first", "last") and t["args"]:
+                pk = _arg_field_place(b, t["args"][0])
+                if pk is None or t.get("target") is None:
+                    continue
+                # the switch on the discriminant of the result, and its Some target
+                tb = t["target"]
+                tt = b.blocks[tb]["term"]
+                if tt["k"] != "switch":
+                    continue
+                dl = (core.op_place(tt["discr"]) or {}).get("local")
+                ds = b.defs().get(dl, []) if dl is not None else []
+                if not (len(ds) == 1 and ds[0][0] == "assign" and ds[0][3]["rv"]["k"] == "discriminant" and ds[0][3]["rv"]["place"]["local"] == t["dest"]["local"]):
+                    continue
+                some = [tg for (v, tg) in (tt.get("targets") or []) if v == 1]
+                if len(some) == 1:
+                    splits.append((pk, tb, some[0]))
+        for i, t in b.calls():
+            if i not in live or core.callee_name(t) != "is_empty" or not t["args"]:
+                continue
+            pk = _arg_field_place(b, t["args"][0])
+            if pk is None:
+                continue
+            n_tests += 1
+            key = "%s|is_empty@%s" % (b.path, ".".join("*" if k_ == "deref" else "f%s" % ix_ for (k_, ix_) in pk[1]))
+            bad = None
+            for (pk1, sw, some) in splits:
+                if pk1 != pk or not b.edge_dominates((sw, some), i):
+                    continue
+                between = b.reachable(some) & {x for x in live if i in b.reachable(x)}
+                wrote = False
+                for x in between:
+                    stmts = b.blocks[x]["stmts"]
+                    for s in stmts:
+                        if s["k"] == "assign" and _field_place_key(s["place"]) == pk:
+                            wrote = True
+                    tx = b.blocks[x]["term"]
+                    if tx["k"] == "call" and x != i:
+                        for a in tx["args"]:
+                            p = core.op_place(a)
+                            if p is not None and (b.local_ty(p["local"]) or "").startswith("&mut"):
+                                wrote = True  # the cursor itself is handed to something that may advance it
+                if not wrote:
+                    bad = t
+            if bad is not None:
+                res.fail(Finding("R9-exhaustion-test", key, "`is_empty()` of a slice field inside the `Some` arm of split_*/first/last of that same field, which nothing has stored to since (line %s): the test is constantly false, so the branch it guards - the cursor's exhaustion answer - is never taken" % bad["span"]["line"], b, bad["span"]["line"]))
+            else:
+                res.ok("R9-exhaustion-test", key, {})
+    res.count("iterator bodies scanned for constant exhaustion tests", n_bodies)
+    res.count("is_empty tests of a cursor field", n_tests)
+    if config == "all" and n_bodies < 6:
+        res.fail(Finding("R9-anchor-lost", "biguint::iter", "only %d bodies found in biguint::iter" % n_bodies, file="src/biguint/iter.rs", line=0))
+    res.clause("R9-exhaustion: no cursor method tests a slice field for emptiness where a dominating split_*/first/last of that unmodified field has already answered Some (such a test is constantly false)")
